@@ -37,17 +37,17 @@ func (s *scriptedSource) Seed(int64) {}
 // stubTarget implements engine.Target for the combat manager (only IsCharacter is used).
 type stubTarget struct{ chars map[key.TargetID]bool }
 
-func (t *stubTarget) IsValid(key.TargetID) bool               { return true }
-func (t *stubTarget) IsAlive(key.TargetID) bool               { return true }
-func (t *stubTarget) IsCharacter(id key.TargetID) bool        { return t.chars[id] }
-func (t *stubTarget) IsEnemy(id key.TargetID) bool            { return !t.chars[id] }
-func (t *stubTarget) AdjacentTo(key.TargetID) []key.TargetID  { return nil }
-func (t *stubTarget) Characters() []key.TargetID              { return nil }
-func (t *stubTarget) Enemies() []key.TargetID                 { return nil }
-func (t *stubTarget) Neutrals() []key.TargetID                { return nil }
-func (t *stubTarget) AddNeutralTarget() key.TargetID          { return 0 }
-func (t *stubTarget) RemoveNeutralTarget(key.TargetID)        {}
-func (t *stubTarget) Retarget(info.Retarget) []key.TargetID   { return nil }
+func (t *stubTarget) IsValid(key.TargetID) bool              { return true }
+func (t *stubTarget) IsAlive(key.TargetID) bool              { return true }
+func (t *stubTarget) IsCharacter(id key.TargetID) bool       { return t.chars[id] }
+func (t *stubTarget) IsEnemy(id key.TargetID) bool           { return !t.chars[id] }
+func (t *stubTarget) AdjacentTo(key.TargetID) []key.TargetID { return nil }
+func (t *stubTarget) Characters() []key.TargetID             { return nil }
+func (t *stubTarget) Enemies() []key.TargetID                { return nil }
+func (t *stubTarget) Neutrals() []key.TargetID               { return nil }
+func (t *stubTarget) AddNeutralTarget() key.TargetID         { return 0 }
+func (t *stubTarget) RemoveNeutralTarget(key.TargetID)       {}
+func (t *stubTarget) Retarget(info.Retarget) []key.TargetID  { return nil }
 
 var dmgTypes = []model.DamageType{0, 1, 2, 3, 4, 5, 6, 7}
 
